@@ -47,6 +47,7 @@ fn tcp_cfg(init: u16, sizes: &[usize], script: Vec<(usize, u16)>) -> SCfg {
         burst,
         script,
         latency: 0,
+        ecmp_longer: (0, 0),
         strategy: strat::strategy_config(Protocol::Tcp, 1, 1, 255, sizes.len(), Duration::ZERO, Duration::ZERO, Duration::ZERO, init),
     }
 }
@@ -76,6 +77,7 @@ fn dublin_v6_cfg(init: u16, m: u8, rounds: usize, script: Vec<(usize, u16)>) -> 
         burst: vec![],
         script,
         latency: 0,
+        ecmp_longer: (0, 0),
         strategy: sc,
     }
 }
